@@ -198,3 +198,45 @@ def all_grid_bops(den):
             for a in range(den + 1):
                 out.append([b / den, d / den, u / den, a / den])
     return out
+
+
+def tiny_base_rate_opinion(rng, ty, n, t, zero_belief=True):
+    """opinion with one tiny positive base-rate entry t (and, by default, zero belief mass there, so that
+    this value decides a minimum of P/a); None if no accepted float tuple was found"""
+    for _ in range(50):
+        k = rng.below(n)
+        a = float_dist(rng, ty, n - 1, positive=True) if n > 1 else []
+        a = [num.rnd(ty, x * (1.0 - t)) for x in a]
+        a.insert(k, t)
+        if not is_one(ty, fsum(ty, a)):
+            continue
+        s = float_simplex(rng, ty, n)
+        b = list(s[0])
+        if zero_belief and n > 1:
+            j = (k + 1) % n
+            b[j] = num.rnd(ty, b[j] + b[k])
+            b[k] = 0.0
+            if not is_one(ty, num.rnd(ty, fsum(ty, b) + s[1])):
+                continue
+        return (b, s[1], a)
+    return None
+
+
+def tiny_base_rate_grid_opinion(rng, n, den, e):
+    """exactly well-formed dyadic opinion (representable in f32 for e <= 20) with one base-rate entry 2^-e and
+    zero belief mass on that value"""
+    assert n >= 2
+    while True:
+        b, u = grid_simplex(rng, n, den, "part")
+        k = rng.below(n)
+        j = (k + 1) % n
+        b = list(b)
+        b[j] += b[k]
+        b[k] = 0.0
+        a = grid_dist(rng, n - 1, den, positive=True)
+        t = 2.0 ** -e
+        i = rng.below(n - 1)
+        a[i] -= t
+        a.insert(k, t)
+        if all(x > 0 for x in a):
+            return (b, u, a)
